@@ -75,6 +75,11 @@ Fixpoint res_pairs (hs : pvec entity) (l : list (href * Z)) : option (list (N * 
 (* ------------------------------------------------------------------ *)
 (* membership, candidate keys *)
 
+(* combinations of two bit sets: intersection, union, symmetric difference, complement of the first *)
+Definition bitop_has (bop : N) (a b : list N) (i : N) : bool :=
+  let ia := existsb (N.eqb i) a in let ib := existsb (N.eqb i) b in
+  if N.eqb bop 0 then ia && ib else if N.eqb bop 1 then ia || ib else if N.eqb bop 2 then xorb ia ib else negb ia.
+
 Definition m_has (e : senv) (eids : NS.t) (m : member) (i : N) : bool :=
   match m with
   | MRead sid | MWrite sid _ _ | MRestrict sid _ _ _ _ _ | MDrain sid => NS.mem i (env_mask e sid)
@@ -83,6 +88,7 @@ Definition m_has (e : senv) (eids : NS.t) (m : member) (i : N) : bool :=
   | MNot sid => negb (NS.mem i (env_mask e sid))
   | MMaybe _ => true
   | MChange k _ _ => NM.mem i (cs_get e k)
+  | MBitOp bop a b => bitop_has bop a b i
   end.
 
 Definition bits_of (l : list N) : NS.t := fold_right NS.add NS.empty l.
@@ -94,6 +100,8 @@ Definition m_cands (e : senv) (eids : NS.t) (m : member) : option (list N) :=
   | MEntities => Some (NS.elements eids)
   | MBits l => Some (NS.elements (bits_of l))
   | MChange k _ _ => Some (map fst (NM.elements (cs_get e k)))
+  | MBitOp bop a b =>
+      if N.ltb bop 3 then Some (filter (bitop_has bop a b) (NS.elements (fold_right NS.add NS.empty (a ++ b)))) else None
   | MNot _ | MMaybe _ => None
   end.
 
@@ -138,7 +146,7 @@ Fixpoint m_get (av : aview) (hs : pvec entity) (excl : bool) (eids : NS.t) (m : 
   | MRead sid => let '(e', t) := env_jact e sid (JRead i) in (e', JTok t)
   | MWrite sid touch d => let '(e', t) := env_jact e sid (JAccess i touch d) in (e', JTok t)
   | MEntities => (e, JEnt (i, av_cur_gen av i))
-  | MBits _ | MNot _ => (e, JUnit)
+  | MBits _ | MNot _ | MBitOp _ _ _ => (e, JUnit)
   | MMaybe m' =>
       if m_has e eids m' i then let '(e', x) := m_get av hs excl eids m' i e in (e', JSome x) else (e, JNone)
   | MDrain sid => let '(e', t) := env_jact e sid (JRemove i) in (e', JTok t)
@@ -199,7 +207,7 @@ Fixpoint m_sid (m : member) : option (N * bool) :=     (* storage used, exclusiv
   | MWrite sid _ _ | MDrain sid => Some (sid, true)
   | MRestrict sid mode _ _ _ _ => Some (sid, negb (N.eqb mode 0))
   | MMaybe m' => m_sid m'
-  | MEntities | MBits _ | MChange _ _ _ => None
+  | MEntities | MBits _ | MChange _ _ _ | MBitOp _ _ _ => None
   end.
 Fixpoint m_cs (m : member) : option (N * bool) :=
   match m with
